@@ -92,12 +92,12 @@ class KaniJob:
             raise Undecided("missing contract file " + path)
         self.appends.append((relfile, '\n#[cfg(kani)]\npub(crate) mod %s {\n    #![allow(unused)]\n    use super::*;\n    include!("%s");\n}\n' % (modname, path)))
 
-    def include_in_macro(self, relfile, macro_name, contract_file, modname="verif_kani"):
+    def include_in_macro(self, relfile, macro_name, contract_file, modname="verif_kani", prelude=""):
         path = os.path.join(KDIR, contract_file)
         if not os.path.exists(path):
             raise Undecided("missing contract file " + path)
         self.macro_appends.append((relfile, macro_name,
-            '\n#[cfg(kani)]\nmod %s {\n    #![allow(unused)]\n    use super::*;\n    include!("%s");\n}\n' % (modname, path)))
+            '\n#[cfg(kani)]\nmod %s {\n    #![allow(unused)]\n    use super::*;\n    %s\n    include!("%s");\n}\n' % (modname, prelude, path)))
 
     def append(self, relfile, text):
         self.appends.append((relfile, text))
